@@ -11,16 +11,20 @@ from . import worldcommon
 THEOREMS = ["ZI.Cache.C05_transparent", "ZI.Cache.inv_run", "ZI.Cache.inv_step", "ZI.Cache.lookup_transparent", "ZI.Cache.run_reg_sro", "ZI.Cache.wf_erase",
             # on the registry model the correspondence validates (notifying flavour, static specification graph)
             "ZI.Registry.C05_registry_cacheOk", "ZI.Registry.C05_registry_transparent_lookup", "ZI.Registry.C05_registry_transparent_lookupAll",
-            "ZI.Registry.C05_registry_transparent_subscriptions", "ZI.Registry.C05_registry_erase", "ZI.Registry.goodBases_reachable"]
+            "ZI.Registry.C05_registry_transparent_subscriptions", "ZI.Registry.C05_registry_erase", "ZI.Registry.goodBases_reachable",
+            # generation-checking flavour (ZI/Props/C05Ver.lean)
+            "ZI.Registry.C05_verifying_invariant", "ZI.Registry.C05_verifying_gen_mono", "ZI.Registry.C05_verifying_transparent_lookup",
+            "ZI.Registry.C05_verifying_transparent_lookupAll", "ZI.Registry.C05_verifying_transparent_subscriptions", "ZI.Registry.C05_verifying_spec",
+            "ZI.Registry.C05_verifying_erase", "ZI.Registry.roFull_regs_length"]
 PROFILE = dict(weights=[4, 1.5, 2, 1.5, 2.5, 2.5, 2.5, 1.6, 0.3], nregs=(2, 4), extra=2, provq=1)
 LOOKUPS = ("lookup", "lookup1", "lookupAll", "names", "subs", "qadapter", "subscribers")
 
 
 def check(tier):
     chk = core.Check("C05", tier)
-    chk.obligations(THEOREMS, ["refinement of the integrated World model to the abstract cache machine for specification changes (dynamic graph, weak tables) "
-                               "and for the generation-checking flavour; for registry-side histories of the notifying flavour the statement is PROVED on the "
-                               "validated registry model itself (C05_registry_cacheOk / _transparent_* / _erase: I3 sub-registry notification, I5 ro = C3 of current bases)"])
+    chk.obligations(THEOREMS, ["refinement of the integrated World model to the abstract cache machine for specification changes (dynamic graph, weak tables); for "
+                               "registry-side histories the statement is PROVED on the validated registry model itself, both flavours (C05_registry_* : I3 sub-registry "
+                               "notification, I5 ro = C3 of current bases; C05_verifying_* : I4 generation snapshots)"])
     rnd = core.rng("C05")
     gen = worldcommon.WorldGen(rnd, tier, PROFILE)
     scripts = [gen.script(i % 2) for i in range({"quick": 60, "thorough": 900}[tier])]
